@@ -7,7 +7,7 @@ package main
 // Cluster.Vote) against every sequence of events up to a depth, instead of only the sequences which E6's
 // network of correct nodes can produce (seed C17-m5 needs a delayed health check of an earlier term of the
 // leader the node follows, which that network cannot deliver). Alphabet: health check (leader a|c, term 1..3),
-// vote request (candidate a|c, term 1..3): 12 events, depth 3 quick / 4 thorough, all sequences.
+// vote request (candidate a|c, term 1..3): 12 events, depth 4 quick / 5 thorough, all sequences.
 
 import (
 	"fmt"
@@ -43,9 +43,9 @@ func TestVerifC17Follower(t *testing.T) {
 			}
 		}
 	}
-	depth := 3
+	depth := 4
 	if vfev.Thorough() {
-		depth = 4
+		depth = 5
 	}
 	var seqs [][]int
 	var gen func(p []int)
